@@ -264,6 +264,9 @@ func PrepareForPackager(
 			if destinationOccupied && presentContent.Type != TypeImplicitDir {
 				return nil, contentCollisionError(content, presentContent)
 			}
+			if presentContent, occupied := contentMap[NormalizeAbsoluteFilePath(content.Destination)]; occupied {
+				return nil, contentCollisionError(content, presentContent)
+			}
 
 			err := addParents(contentMap, content.Destination, mtime)
 			if err != nil {
@@ -279,7 +282,7 @@ func PrepareForPackager(
 			// have been expanded so we can just ignore it, it will be created
 			// by another content element again anyway
 		case TypeRPMGhost, TypeSymlink, TypeRPMDoc, TypeRPMLicence, TypeRPMLicense, TypeRPMReadme, TypeDebChangelog:
-			presentContent, destinationOccupied := contentMap[NormalizeAbsoluteFilePath(content.Destination)]
+			presentContent, destinationOccupied := occupant(contentMap, content.Destination)
 			if destinationOccupied {
 				return nil, contentCollisionError(content, presentContent)
 			}
@@ -356,6 +359,10 @@ func addParents(contentMap map[string]*Content, path string, mtime time.Time) er
 		// check for content collision and just overwrite previously created
 		// implicit directories
 		c, ok := contentMap[parent]
+		if !ok {
+			// a file, symlink, ... at this path is not a directory we could put something into
+			c, ok = contentMap[strings.TrimSuffix(parent, "/")]
+		}
 		if ok {
 			// either we already created this directory as an explicit directory
 			// or as an implicit directory of another file
@@ -382,6 +389,16 @@ func addParents(contentMap map[string]*Content, path string, mtime time.Time) er
 	}
 
 	return nil
+}
+
+// occupant returns the entry that already sits at dst, whether it was stored
+// as a file (no trailing slash) or as a directory (trailing slash).
+func occupant(contentMap map[string]*Content, dst string) (*Content, bool) {
+	if c, ok := contentMap[NormalizeAbsoluteFilePath(dst)]; ok {
+		return c, true
+	}
+	c, ok := contentMap[NormalizeAbsoluteDirPath(dst)]
+	return c, ok
 }
 
 func sortedParents(dst string) []string {
@@ -413,7 +430,7 @@ func addGlobbedFiles(
 ) error {
 	for src, dst := range globbed {
 		dst = NormalizeAbsoluteFilePath(dst)
-		presentContent, destinationOccupied := all[dst]
+		presentContent, destinationOccupied := occupant(all, dst)
 		if destinationOccupied {
 			c := *origFile
 			c.Destination = dst
@@ -459,6 +476,9 @@ func addTree(
 	if tree.Destination != "/" && tree.Destination != "" {
 		presentContent, destinationOccupied := all[NormalizeAbsoluteDirPath(tree.Destination)]
 		if destinationOccupied && presentContent.Type != TypeImplicitDir {
+			return contentCollisionError(tree, presentContent)
+		}
+		if presentContent, occupied := all[NormalizeAbsoluteFilePath(tree.Destination)]; occupied {
 			return contentCollisionError(tree, presentContent)
 		}
 	}
@@ -520,6 +540,15 @@ func addTree(
 
 		if tree.FileInfo != nil && tree.FileInfo.Mode != 0 && c.Type != TypeSymlink {
 			c.FileInfo.Mode = tree.FileInfo.Mode
+		}
+
+		// something already placed where the tree puts this entry? Only a
+		// directory of the tree may take the place of an implied directory.
+		if presentContent, occupied := occupant(all, c.Destination); occupied {
+			replacesImplied := (c.Type == TypeDir || c.Type == TypeImplicitDir) && presentContent.Type == TypeImplicitDir
+			if !replacesImplied {
+				return contentCollisionError(c, presentContent)
+			}
 		}
 
 		all[c.Destination] = c.WithFileInfoDefaults(umask, mtime)
